@@ -188,6 +188,26 @@ def _body(ctx, conv, shape, bounds, as_coords, layout, nan_cells=None, mesh_opts
         cv.__dict__['strtree'] = tree
 
 
+def body_large(ctx):
+    """A grid with more than 2**15 cells whose native indexes arrive as narrow numpy integers (read from a table of
+    stations): position n of the flattened variable, polygon n and the selection by index are the same cell."""
+    from emsarray.conventions.grid import CFGrid1D
+    ny, nx = 200, 300
+    vals = numpy.arange(ny * nx, dtype=float).reshape(ny, nx) * 0.5
+    ds = pipeline.builders.cf1d(ny, nx, lat=numpy.linspace(-40.0, -10.0, ny), lon=numpy.linspace(110.0, 160.0, nx), data_vars={'temp': (('y', 'x'), vals)})
+    cv = CFGrid1D(ds)
+    flat = cv.ravel(ds['temp']).values
+    k = int(ctx.int('station', 0, 5))
+    j, i = [(0, 0), (109, 67), (110, 7), (150, 299), (199, 0), (199, 299)][k]
+    for dt in (numpy.int16, numpy.int32, numpy.uint16, numpy.int64):
+        idx = (dt(j), dt(i))
+        n = cv.ravel_index(idx)
+        ctx.check(int(n) == j * nx + i, 'linear index of a native index held in a narrow integer type is its row-major position')
+        ctx.check(float(flat[int(n)]) == float(vals[j, i]) and float(cv.select_index(idx)['temp'].values) == float(vals[j, i]),
+                  'element n of the flattened variable == value selected by the native index of n')
+        ctx.check(tuple(int(v) for v in cv.wind_index(int(n))) == (j, i), 'wind_index(ravel_index(idx)) == idx')
+
+
 class _OneHit:
     """STRtree contract for a point inside exactly one cell: query(...) == [n]."""
     def __init__(self, geometries, n):
@@ -223,6 +243,7 @@ def cases(tier):
         yield Case(f'{conv}:{shape[0]}x{shape[1]}:{bounds}:vars:plain:datafirst', body,
                    dict(conv=conv, shape=shape, bounds=bounds, as_coords=False, layout='plain', nan_cells=(), data_first=True),
                    patches=P, max_paths=500)
+    yield Case('cf1d:200x300:narrow-integer-indexes', body_large, dict(), max_paths=10)
     # coordinate variables named by the caller
     for conv, shape, bounds in (('cf1d', (2, 3), 'none'), ('cf2d', (3, 2), 'stored')):
         yield Case(f'{conv}:{shape[0]}x{shape[1]}:{bounds}:vars:plain:explicit-names', body,
